@@ -2,12 +2,13 @@
    [TransportRefsContainer] (set_if_equals, add_if_new, remove_if_equals,
    read_loose_ref, get_packed_refs, _remove_packed_ref) and of the inherited
    dulwich [RefsContainer.read_ref] / [follow], as the code is at /repo HEAD
-   (after commit f5e2d7f: old_ref is honoured).
+   (after commits f5e2d7f: old_ref is honoured, and 80b730a: _remove_packed_ref
+   no longer returns early when the packed cache was never loaded).
 
    Shared state = what lives on the transport: the loose ref files and the
    packed-refs file.  Every [TransportRefsContainer] object additionally owns a
    cache [_packed_refs] ([None] until the first get_packed_refs(); never
-   invalidated except inside _remove_packed_ref).
+   invalidated except inside _remove_packed_ref, which always re-reads).
 
    An operation is a program-counter machine ([tstate]).  ONE step = the
    pending MUTATING transport call (put_bytes / delete / open_write_stream)
@@ -186,19 +187,14 @@ Section Ops.
          mkThread (TDone (RRet true)) (tc t))
     | TRmDelete n =>
         (* with suppress(NoSuchFile): transport.delete(name); then _remove_packed_ref(name):
-             if self._packed_refs is None: return
-             self._packed_refs = None; self.get_packed_refs()        (re-read)
+             self._packed_refs = None; self.get_packed_refs()        (always re-read, 80b730a)
              if name not in self._packed_refs: return
              del self._packed_refs[name]   ... then the write is the next step *)
         let st1 := mkStore (upd (loose st) n None) (packed st) in
-        match tc t with
-        | None => (st1, mkThread (TDone (RRet true)) None)
-        | Some _ =>
-            let m := packed st1 in
-            match m n with
-            | None => (st1, mkThread (TDone (RRet true)) (Some m))
-            | Some _ => let m' := upd m n None in (st1, mkThread (TRmWrite m') (Some m'))
-            end
+        let m := packed st1 in
+        match m n with
+        | None => (st1, mkThread (TDone (RRet true)) (Some m))
+        | Some _ => let m' := upd m n None in (st1, mkThread (TRmWrite m') (Some m'))
         end
     | TRmWrite m =>
         (* with open_write_stream("packed-refs") as f: write_packed_refs(f, self._packed_refs, ...) *)
